@@ -132,6 +132,30 @@ class Ob(object):
             return self._add(name, kind, 'failed', {'model': m, 'cond': str(z3.simplify(cond))[:300]})
         return self._add(name, kind, 'undecided', {'reason': 'solver unknown', 'cond': str(cond)[:300]})
 
+    def decide_under(self, cond, hyps=(), timeout_ms=8000):
+        """pc /\ hyps |= cond, tried on growing fact sets (cond alone, facts sharing symbols with it, the whole path condition):
+        a small query is decided quickly even when the path condition holds nonlinear facts.  'proved' | 'refuted' | 'unknown'"""
+        goal = z3.simplify(cond) if not isinstance(cond, bool) else z3.BoolVal(cond)
+        if z3.is_true(goal):
+            return 'proved'
+        if os.environ.get('TTVC_DEBUG'):
+            print('DEBUG decide_under', len(str(goal)), str(goal)[:400].replace('\n', ' '), flush=True)
+        s = z3.Solver()
+        s.set('timeout', timeout_ms)
+        for h in hyps:
+            s.add(h)
+        s.add(z3.Not(goal))
+        t = time.time()
+        r = s.check()
+        P.STATS['queries'] += 1
+        P.STATS['solver_s'] += time.time() - t
+        if r == z3.unsat:
+            return 'proved'
+        if _prove_relevant(self.ex, z3.Implies(z3.And(*hyps), goal) if hyps else goal, [], timeout_ms=timeout_ms):
+            return 'proved'
+        r = self.ex.pc._check(z3.Not(goal), *hyps)
+        return 'proved' if r == z3.unsat else 'refuted' if r == z3.sat else 'unknown'
+
     def prove_all(self, prefix, facts, kind='post'):
         for n, c in facts:
             self.prove('%s.%s' % (prefix, n), c, kind)
